@@ -14,7 +14,7 @@ LEVEL_TEXT = (
     '(known finding). Exactly-once in-order delivery over all interleavings is a model-checking '
     'statement and is NOT decided here.')
 
-FLOORS = {'C16-R1': 6, 'C16-R2': 3, 'C16-R3': 1}
+FLOORS = {'C16-R1': 9, 'C16-R2': 3, 'C16-R3': 1}
 
 ORL = 'actor::ordered_reliable_link::'
 ON_MSG = '<actor::ordered_reliable_link::ActorWrapper<A> as actor::Actor>::on_msg'
@@ -266,6 +266,68 @@ def r3_gap_blind(ctx, F, cmp_sw, inner, blocks, seq):
                   'skipped - the handed-over sequence is no longer a prefix of the sent one')
 
 
+def r1_rebuild_keeps_bookkeeping(ctx, F, rule='C16-R1'):
+    """The link's state is sometimes rebuilt as a whole (when the wrapped actor replaced its state). A rebuild in
+    a handler carries the three bookkeeping fields over from the current state; only on_start starts them fresh.
+    A rebuild that takes `msgs_pending_ack` from a fresh value forgets what still awaits an ack: it is never resent."""
+    from taint import origin_vals
+    SW = 'actor::ordered_reliable_link::StateWrapper'
+    keep = ('next_send_seq', 'msgs_pending_ack', 'last_delivered_seqs')
+    n = 0
+    for path in (ON_MSG, ON_TIMEOUT):
+        b = F.body(path)
+        def consumed_whole(l, depth=0):
+            """local l is used as a value of its own (put into another aggregate, passed to a call, stored through a
+            reference) - possibly after being moved through other locals - and not only taken apart field by field"""
+            if depth > 6:
+                return False
+            for bl in b.blocks:
+                for st_ in bl['stmts']:
+                    if st_['k'] != 'assign':
+                        continue
+                    rv_ = st_['rv']
+                    ops_ = rv_.get('ops', []) if rv_['k'] == 'agg' else []
+                    if any(o_.get('k') in ('copy', 'move') and o_['place']['l'] == l and not o_['place']['p'] for o_ in ops_):
+                        return True
+                    if rv_['k'] in ('use', 'cast') and rv_['op'].get('k') in ('copy', 'move') and \
+                            rv_['op']['place']['l'] == l and not rv_['op']['place']['p']:
+                        if st_['lhs']['p']:
+                            return True
+                        if consumed_whole(st_['lhs']['l'], depth + 1):
+                            return True
+                t_ = bl['term']
+                if t_['k'] == 'call' and any(o_.get('k') in ('copy', 'move') and o_['place']['l'] == l and
+                                             not o_['place']['p'] for o_ in t_['args']):
+                    return True
+            return False
+        whole_uses = None
+        for (i, si, st) in b.assigns(lambda st: st['rv']['k'] == 'agg' and st['rv'].get('adt') == SW):
+            if st['lhs']['p'] or not consumed_whole(st['lhs']['l']):
+                continue      # a temporary that is only taken apart again (`..StateWrapper::new(x)`)
+            n += 1
+            fields = dict(zip(st['rv']['fields'], st['rv']['ops']))
+            for f in keep:
+                op = fields.get(f)
+                ok = False
+                if op is not None and op.get('k') in ('copy', 'move'):
+                    vs = origin_vals(b, op)
+                    ok = bool(vs)
+                    for v in vs:
+                        v = noref(b.trace(noref(v), ('Clone::clone', 'Deref::deref', 'DerefMut::deref_mut', 'Cow::to_mut')))
+                        # the current state is parameter 3 (`state: &mut Cow<StateWrapper>`)
+                        if not (v.kind == 'arg' and v.key == 3 and v.fields()[-1:] == ('.' + f,)):
+                            ok = False
+                ctx.check(ok, rule, 'rebuild-keeps-%s@%s' % (f, path.split('::')[-1]), b,
+                          good='a rebuilt link state takes `%s` from the current state' % f,
+                          bad='%s rebuilds the link state with `%s` not taken from the current state (a fresh / default '
+                              'value): %s' % (path.split('::')[-1].join(['ActorWrapper::', '']), f,
+                                              'messages still awaiting an ack are forgotten and never resent'
+                                              if f == 'msgs_pending_ack' else
+                                              'sequencers restart / delivered messages are handed over again'),
+                          span=st.get('span'))
+    return n
+
+
 def run(ctx):
     F = ctx.facts
     ctx.doc('C16-R1', 'timer re-armed and every pending entry resent; msgs_pending_ack mutated only by insert '
@@ -277,6 +339,7 @@ def run(ctx):
                       'comparison against the stored last sequencer and nothing is buffered, gaps are invisible')
     with ctx.rule('C16-R1', 'orl'):
         r1_retransmission(ctx, F)
+        r1_rebuild_keeps_bookkeeping(ctx, F)
     with ctx.rule('C16-R2', 'orl'):
         res = r2_ack_implies_handover(ctx, F)
         with ctx.rule('C16-R3', 'orl'):
